@@ -712,7 +712,12 @@ impl QueryEngine {
 
                     let low = Self::convert_scalar_to_predicate_value(&between.low)?;
                     let high = Self::convert_scalar_to_predicate_value(&between.high)?;
-                    Some(ColumnPredicate::Between(col.name.clone(), low, high))
+                    let pred = ColumnPredicate::Between(col.name.clone(), low, high);
+                    if between.negated {
+                        Some(ColumnPredicate::Not(Box::new(pred)))
+                    } else {
+                        Some(pred)
+                    }
                 } else {
                     None
                 }
